@@ -137,7 +137,7 @@ def run(rng, res, tier, shard, nshards):
     for fn in ('add_asset', 'remove_asset', 'remove_asset_from_association', 'remove_association', 'add_association',
                '_validate_association', 'association_exists_between_assets', 'get_associated_assets_by_field_name',
                'add_attacker', 'remove_attacker'):
-        reach.add('Model.' + fn, getattr(Model, fn))
+        reach.add('Model.' + fn, getattr(Model, fn, None))
     reach.add('AttackerAttachment.add_entry_point', AttackerAttachment.add_entry_point)
     reach.add('AttackerAttachment.remove_entry_point', AttackerAttachment.remove_entry_point)
     reach.start()
